@@ -19,6 +19,26 @@ def resolve(geo, st, env):
             return [dict(op=op, layers=[geo.layerlist[i].name for i in st['layers']], factor=st['factor'])]
         return [R.resolve(geo, st)]
     if op == 'check_fix': return [dict(op='check_fix')]
+    if op == 'refresh': return [dict(op='refresh')]
+    if op == 'companion':
+        return [dict(op='companion', do=x) for x in resolve(geo._vx_companion, st['do'], env)]
+    if op in ('copy_layers_from', 'give_layers') and st.get('companion'):
+        d = dict(op=op, companion=True)
+        if 'thicknesses' in st:
+            d.update(thicknesses=[float(v) for v in num(st['thicknesses'])], top=float(num(st['top'])), surface=float(num(st['surface'])))
+        return [d]
+    if op == 'add_extra_connection':
+        return [dict(op='add_connection', cols=[find_column(geo, v).name for v in st['cols']])]
+    if op == 'rename_column' and 'cols' in st:
+        olds = [find_column(geo, v).name for v in st['cols']]
+        return [dict(op=op, col=olds, name=CC.perm_names(olds, st['perm']))]
+    if op == 'rename_column' and 'clash' in st:
+        return [dict(op=op, col=find_column(geo, st['col']).name, name=find_column(geo, st['clash']).name)]
+    if op == 'rename_layer' and 'layers' in st:
+        olds = [geo.layerlist[i].name for i in st['layers']]
+        return [dict(op=op, layer=olds, name=CC.perm_names(olds, st['perm'], 'zq'))]
+    if op == 'rename_layer' and 'clash' in st:
+        return [dict(op=op, layer=geo.layerlist[st['layer']].name, name=geo.layerlist[st['clash']].name)]
     if op in ('reduce', 'snap', 'snap_nearest'):
         d = dict(op=op, cols=[find_column(geo, v).name for v in st['cols']])
         if op == 'snap': d['min_thickness'] = float(num(st['min_thickness']))
@@ -134,13 +154,17 @@ def replay(d):
     import mulgrids as M
     fam, clause, si = d['family'], d['clause'], d['step']
     geo = CC.build(M, fam, R.ConcEnv(d['values']))
+    def tgt():      # the geometry the clause is about: the primary one or the companion of a two-geometry history
+        return geo._vx_companion if d.get('target') == 'companion' else geo
     if si < 0:      # the family as built by the real constructors already violates the clause
         after = clause_defects(geo, clause)
         return bool(after), 'initial state (built by the real rectangular()/add_* calls), clause %s: %r' % (clause, after[:3])
     before = None
     try:
         for i, st in enumerate(d['steps']):
-            if i == si: before = clause_defects(geo, clause) if clause != 'valid-mesh' else []
+            if i == si:
+                if d.get('target') == 'companion' and getattr(geo, '_vx_companion', None) is None: before = []
+                else: before = clause_defects(tgt(), clause) if clause != 'valid-mesh' else []
             for one in resolve(geo, st, None):
                 CC.apply_step(M, geo, one)
             if i == si: break
@@ -151,7 +175,7 @@ def replay(d):
             return type(ex).__name__ == d.get('exception'), 'step %d (%s) raises %s: %s' % (si, d['steps'][si]['op'], type(ex).__name__, ex)
         return False, 'step %d raises %s: %s' % (si, type(ex).__name__, ex)
     if clause == 'raises': return False, 'step %d does not raise' % si
-    after = clause_defects(geo, clause)
+    after = clause_defects(tgt(), clause)
     if before:
         return False, 'clause %s was already broken before step %d: %r' % (clause, si, before[:2])
     return bool(after), 'after step %d (%s) clause %s: %r' % (si, d['steps'][si]['op'], clause, after[:3])
